@@ -210,3 +210,131 @@ Proof.
       destruct (v_status v) eqn:St; try reflexivity.
       destruct (Act a v E St) as [q Hq]. congruence.
 Qed.
+
+(* ---------------------------------------------------------------- top-K: who is Active after EndBlocker *)
+(* the walk visits exactly the first entries of the ranking list until max-validators is reached *)
+Definition budget (s : lstate) (count : Z) : nat := Z.to_nat (lp_max_validators (l_params s) - count).
+
+Lemma end_walk_params_keep r : forall s last ups count s1 rest ups1,
+  end_walk s last ups count r = Ok (s1, rest, ups1) -> l_params s1 = l_params s.
+Proof.
+  induction r as [|[p a] r IH]; intros s last ups count s1 rest ups1; cbn [end_walk]; [intros [= <- _ _]; reflexivity|].
+  destruct (count >=? _); [intros [= <- _ _]; reflexivity|].
+  destruct (l_val s !! a) as [v|]; [|discriminate]. destruct (v_status v); try discriminate.
+  - destruct (last !! a); [discriminate|]. intros H. rewrite (IH _ _ _ _ _ _ _ H). reflexivity.
+  - destruct (_ =? _)%N; intros H; rewrite (IH _ _ _ _ _ _ _ H); reflexivity.
+Qed.
+
+Lemma end_walk_visits r : forall s0 s last ups count visited s1 rest ups1,
+  walk_inv s0 s last visited -> l_params s = l_params s0 ->
+  List.NoDup (map snd r) -> (forall p a, In (p, a) r -> a ∉ visited) ->
+  (forall p a, In (p, a) r -> exists v, l_val s0 !! a = Some v /\ v_power v = p /\ (0 < p)%N) ->
+  end_walk s last ups count r = Ok (s1, rest, ups1) ->
+  walk_inv s0 s1 rest (list_to_set (map snd (firstn (budget s0 count) r)) ∪ visited).
+Proof.
+  induction r as [|[p a] r IH]; intros s0 s last ups count visited s1 rest ups1 WI Par ND Hnv Hok; cbn [end_walk].
+  - intros [= <- <- _]. rewrite firstn_nil. cbn. assert (∅ ∪ visited = visited) as -> by set_solver. exact WI.
+  - destruct (count >=? lp_max_validators (l_params s)) eqn:Full.
+    + intros [= <- <- _]. unfold budget. rewrite <- Par. replace (Z.to_nat _) with 0%nat by lia. cbn.
+      assert (∅ ∪ visited = visited) as -> by set_solver. exact WI.
+    + assert (Hb : budget s0 count = S (budget s0 (count + 1))) by (unfold budget; rewrite <- Par; lia).
+      rewrite Hb. cbn [firstn map snd list_to_set].
+      inversion ND as [|? ? Hna ND']; subst.
+      destruct (wi_unv _ _ _ _ WI a (Hnv p a (or_introl eq_refl))) as (Ev & Es & El).
+      destruct (Hok p a (or_introl eq_refl)) as (v & E0 & Pv & Pos). rewrite Ev, E0.
+      assert (Hnv' : forall q b, In (q, b) r -> b ∉ {[a]} ∪ visited).
+      { intros q b Hin Hb'. apply elem_of_union in Hb'. destruct Hb' as [Hb'|Hb'].
+        - apply elem_of_singleton in Hb'. subst b. apply Hna. apply in_map_iff. exists (q, a). auto.
+        - eapply Hnv; [right; exact Hin|exact Hb']. }
+      assert (Hok' : forall q b, In (q, b) r -> exists w, l_val s0 !! b = Some w /\ v_power w = q /\ (0 < q)%N)
+        by (intros q b Hin; apply (Hok q b); right; exact Hin).
+      assert (Assoc : forall X : gset N, {[a]} ∪ X ∪ visited = X ∪ ({[a]} ∪ visited)) by (intros X; set_solver).
+      destruct (v_status v) eqn:St; try discriminate.
+      * destruct (last !! a) eqn:La; [discriminate|]. intros H. rewrite Assoc.
+        eapply IH; [| |exact ND'|exact Hnv'|exact Hok'|exact H]; [|exact Par].
+        constructor.
+        -- intros b Hb'. apply elem_of_union in Hb'. destruct (decide (b = a)) as [->|Hne].
+           ++ eexists. cbn. rewrite !lookup_insert. split; [reflexivity|]. cbn. auto.
+           ++ destruct Hb' as [Hb'|Hb']; [apply elem_of_singleton in Hb'; congruence|].
+              destruct (wi_vis _ _ _ _ WI b Hb') as (w & Ew & Sw & Sset & Lw). exists w. cbn.
+              rewrite !lookup_insert_ne by congruence. auto.
+        -- intros b Hb'. assert (b <> a) by (intros ->; apply Hb'; apply elem_of_union; left; apply elem_of_singleton; reflexivity).
+           assert (b ∉ visited) by (intros Hv; apply Hb'; apply elem_of_union; right; exact Hv).
+           cbn. rewrite !lookup_insert_ne by congruence. apply (wi_unv _ _ _ _ WI b). assumption.
+      * set (old := default 0%N (last !! a)).
+        destruct (old =? v_power v)%N eqn:Eq; intros H; rewrite Assoc;
+          (eapply IH; [| |exact ND'|exact Hnv'|exact Hok'|exact H]; [|exact Par]); constructor.
+        -- intros b Hb'. apply elem_of_union in Hb'. destruct (decide (b = a)) as [->|Hne].
+           ++ exists v. rewrite Ev, E0, lookup_delete. repeat split; auto.
+              rewrite Es, <- El. apply N.eqb_eq in Eq. subst old. destruct (last !! a) as [o|]; cbn in Eq; [congruence|lia].
+           ++ destruct Hb' as [Hb'|Hb']; [apply elem_of_singleton in Hb'; congruence|].
+              destruct (wi_vis _ _ _ _ WI b Hb') as (w & Ew & Sw & Sset & Lw). exists w.
+              rewrite lookup_delete_ne by congruence. auto.
+        -- intros b Hb'. assert (b <> a) by (intros ->; apply Hb'; apply elem_of_union; left; apply elem_of_singleton; reflexivity).
+           assert (b ∉ visited) by (intros Hv; apply Hb'; apply elem_of_union; right; exact Hv).
+           rewrite lookup_delete_ne by congruence. apply (wi_unv _ _ _ _ WI b). assumption.
+        -- intros b Hb'. apply elem_of_union in Hb'. destruct (decide (b = a)) as [->|Hne].
+           ++ exists v. cbn. rewrite Ev, E0, lookup_insert, lookup_delete. repeat split; auto.
+           ++ destruct Hb' as [Hb'|Hb']; [apply elem_of_singleton in Hb'; congruence|].
+              destruct (wi_vis _ _ _ _ WI b Hb') as (w & Ew & Sw & Sset & Lw). exists w. cbn.
+              rewrite lookup_insert_ne, lookup_delete_ne by congruence. auto.
+        -- intros b Hb'. assert (b <> a) by (intros ->; apply Hb'; apply elem_of_union; left; apply elem_of_singleton; reflexivity).
+           assert (b ∉ visited) by (intros Hv; apply Hb'; apply elem_of_union; right; exact Hv).
+           cbn. rewrite lookup_insert_ne, lookup_delete_ne by congruence. apply (wi_unv _ _ _ _ WI b). assumption.
+Qed.
+
+(* after EndBlocker the Active validators are exactly the first max-validators entries of the ranking
+   (highest power first): the validator set is the top-K *)
+Theorem end_block_top_k s s' ups :
+  rank_spec s -> active_in_set s -> end_block s = Ok (s', ups) ->
+  forall a, (exists v, l_val s' !! a = Some v /\ v_status v = Active) <->
+            In a (map snd (firstn (Z.to_nat (lp_max_validators (l_params s))) (rank_desc s))).
+Proof.
+  intros A Act. unfold end_block.
+  destruct (end_walk s (l_set s) [] 0 (rank_desc s)) as [[[s1 rest] u1]| |] eqn:W; cbn [rbind]; try discriminate.
+  intros R.
+  destruct (rank_spec_rank_wf s A) as [Hok ND].
+  assert (WI : walk_inv s s1 rest (list_to_set (map snd (firstn (budget s 0) (rank_desc s))) ∪ ∅)).
+  { eapply end_walk_visits; [| |exact ND| | |exact W]; [constructor; [intros a H; apply elem_of_empty in H; destruct H|auto]|reflexivity| |].
+    - intros p a _ H. apply elem_of_empty in H. exact H.
+    - intros p a Hin. destruct (Hok p a Hin) as (v & E & P & Pos & _). eauto. }
+  assert (Hb : budget s 0 = Z.to_nat (lp_max_validators (l_params s))) by (unfold budget; f_equal; lia).
+  rewrite Hb in WI. set (top := map snd (firstn (Z.to_nat (lp_max_validators (l_params s))) (rank_desc s))) in *.
+  destruct (end_remove_set _ _ _ _ _ R) as [In' Out].
+  intros a.
+  assert (Hvis : a ∈ (list_to_set top ∪ ∅ : gset N) <-> In a top).
+  { rewrite elem_of_union, elem_of_list_to_set, elem_of_list_In. split; [intros [H|H]; [exact H|apply elem_of_empty in H; destruct H]|auto]. }
+  destruct (decide (a ∈ map fst (map_to_list rest))) as [Hin|Hout].
+  - (* queued for removal: not Active afterwards, and not visited *)
+    destruct (In' a Hin) as (N & v & v' & E & E' & St & _).
+    assert (Hr : is_Some (rest !! a)).
+    { apply elem_of_list_In, in_map_iff in Hin. destruct Hin as ([b q] & Hb' & Hin). cbn in Hb'. subst b.
+      apply elem_of_list_In, elem_of_map_to_list in Hin. eauto. }
+    split.
+    + intros (w & Ew & Sw). congruence.
+    + intros Ht. apply Hvis in Ht. destruct (wi_vis _ _ _ _ WI a Ht) as (_ & _ & _ & _ & Hn). destruct Hr as [q Hq]. congruence.
+  - destruct (Out a Hout) as [O1 O2]. rewrite O2.
+    assert (Hr : rest !! a = None).
+    { destruct (rest !! a) as [q|] eqn:Er; [|reflexivity]. exfalso. apply Hout.
+      apply elem_of_list_In, in_map_iff. exists (a, q). split; [reflexivity|]. apply elem_of_list_In, elem_of_map_to_list. exact Er. }
+    destruct (decide (a ∈ (list_to_set top ∪ ∅ : gset N))) as [Hv|Hv].
+    + destruct (wi_vis _ _ _ _ WI a Hv) as (v & E & St & _). split; [intros _; apply Hvis; exact Hv|intros _; eauto].
+    + destruct (wi_unv _ _ _ _ WI a Hv) as (Ev & Es & El). rewrite Ev. rewrite Hr in El. split.
+      * intros (v & E & St). destruct (Act a v E St) as [q Hq]. congruence.
+      * intros Ht. exfalso. apply Hv. apply Hvis. exact Ht.
+Qed.
+
+(* the ranking list is sorted: highest power first, ties by higher address first *)
+Definition rank_le (x y : N * N) : Prop :=
+  Is_true ((fst x <? fst y)%N || ((fst x =? fst y)%N && (snd x <=? snd y)%N)).
+Global Instance rank_le_total : Total rank_le.
+Proof.
+  intros [p a] [q b]. unfold rank_le. cbn.
+  destruct (p <? q)%N eqn:E1; [left; exact I|]. destruct (q <? p)%N eqn:E2; [right; exact I|].
+  assert (p = q) by lia. subst q. rewrite !N.eqb_refl. cbn.
+  destruct (a <=? b)%N eqn:E3; [left; exact I|]. right. destruct (b <=? a)%N eqn:E4; [exact I|lia].
+Qed.
+Theorem rank_desc_sorted s : Sorted (flip rank_le) (rank_desc s).
+Proof.
+  unfold rank_desc. rewrite rev_alt. apply (Sorted_reverse rank_le). apply (Sorted_merge_sort rank_le).
+Qed.
